@@ -13,4 +13,19 @@ let handle (args : t list) : t =
       L (List.map of_cl (declared (nat_of_int (int k)) (nat_of_int (int m)) (cl "matches")))
   | [A "pattern-literal"; p] -> of_cl (pattern_literal (sl p))
   | [A "set-literal"; L vs] -> of_cl (string_set_literal (List.map sl vs))
+  (* (rule-lines level x class name (snippet ...) ("iri" ...) "message as written") -> ("line" ...)      RuleGen.rule_lines
+     snippet = (count src rule n per-value negated cond k cid tpath) | (pattern src rule n negated "pattern" "shown" tpath)
+             | (datatype src rule n negated dt tpath) *)
+  | [A "rule-lines"; level; x; cls; name; L snips; L iris; msg] ->
+      let x' = sl x in
+      let b v = (match v with A "1" -> true | A "true" -> true | _ -> false) in
+      let snip = function
+        | L [A "count"; src; rule; n; pv; neg; cond; k; cid; tp] ->
+            count_snippet x' (sl src) (sl rule) (nat_of_int (int n)) (b pv) (b neg) (sl cond) (nat_of_int (int k)) (sl cid) (sl tp)
+        | L [A "pattern"; src; rule; n; neg; pat; shown; tp] ->
+            pattern_snippet x' (sl src) (sl rule) (nat_of_int (int n)) (b neg) (pattern_literal (sl pat)) (sl shown) (sl tp)
+        | L [A "datatype"; src; rule; n; neg; dt; tp] ->
+            datatype_snippet x' (sl src) (sl rule) (nat_of_int (int n)) (b neg) (sl dt) (sl tp)
+        | _ -> raise (Parse_error "c07 snippet") in
+      L (List.map of_cl (rule_lines (sl level) x' (sl cls) (paste_name (sl name)) (List.map snip snips) (List.map sl iris) (paste_message (sl msg))))
   | _ -> raise (Parse_error "c07 op")
